@@ -49,7 +49,7 @@ PROP = {'drive': ['Total'] + ['Total' + g for g in _GROUPS],
                        'C02_gpos31_no_panic', 'C02_gpos_dispatch_no_panic', 'C02_anchor_no_panic', 'C02_markarray_no_panic',
                        'C02_gpos11_cost', 'C02_gpos12_cost', 'C02_gpos21_cost_partial', 'C02_gpos22_cost',
                        'C02_gpos31_cost', 'C02_markarray_cost', 'C02_gpos11_agrees', 'C02_gpos12_agrees'],
- 'areas': [('total', 3000, 40000)],
+ 'areas': [('total', 3000, 28000)],
  'rule': 'distinct case lines (decoder, bytes); non-trivial = input of at least 4 bytes',
  'partial': [
      'modelled: yes / proved: yes (checked-index model, no panic on every input, explicit cost, V stream + site inventory), tier A: '
